@@ -6,5 +6,14 @@ A=$1; B=${2:-/root/work2/base}
 cd /tmp && rm -rf mf && mkdir mf && cd mf
 ln -s $B a; ln -s $A b
 diff -ruN -x .lake -x bin -x replays -x Generated -x go.sum -x go.mod -x evidence -x '*.drive.json' -x .git -x __pycache__ a/ b/ > ../mf.patch || true
-cd /verif && git apply --3way --whitespace=nowarn /tmp/mf.patch && echo merged; grep -c '^diff ' /tmp/mf.patch
+cd /verif
+if git apply --whitespace=nowarn /tmp/mf.patch 2>/dev/null; then echo merged
+else
+  # shared text files move under every merge: apply the rest, then those with fuzz / rejects
+  git apply --whitespace=nowarn --exclude=DESIGN.md --exclude=known_findings.json --exclude=MANIFEST.json /tmp/mf.patch && echo "merged (without shared files)"
+  for f in DESIGN.md known_findings.json MANIFEST.json; do
+    git apply --whitespace=nowarn --include=$f /tmp/mf.patch 2>/dev/null && echo "  $f ok" || { patch -p1 --merge -s < <(filterdiff -i "b/$f" /tmp/mf.patch 2>/dev/null) 2>/dev/null && echo "  $f merged with patch" || echo "  $f NEEDS HAND MERGE"; }
+  done
+fi
+grep -c '^diff ' /tmp/mf.patch
 rm -rf /tmp/mf
